@@ -34,5 +34,6 @@ Definition dispatch (n : Z) (s : sexp) : sexp :=
   | 26 => quote_entry s
   | 27 => testnames_entry s
   | 28 => generated_entry s
+  | 29 => oracle_entry s
   | _ => L [A (-1)]
   end.
